@@ -21,6 +21,7 @@ import (
 	"github.com/olric-data/olric"
 	"github.com/olric-data/olric/config"
 	"github.com/olric-data/olric/internal/cluster/partitions"
+	"github.com/olric-data/olric/internal/discovery"
 	"github.com/olric-data/olric/internal/dmap"
 	"github.com/olric-data/olric/internal/testutil"
 	"github.com/olric-data/olric/internal/verifhook"
@@ -65,6 +66,9 @@ func (c *clusterT) newConfig(fixedPort int) *config.Config {
 	cfg.ReadQuorum = optInt(o, "rq", 1)
 	cfg.MemberCountQuorum = 1 // raised later with c.mcq: members are started one by one
 	cfg.ReadRepair = optInt(o, "rr", 0) == 1
+	if lf := optInt(o, "lf100", 0); lf > 0 {
+		cfg.LoadFactor = float64(lf) / 100
+	}
 	cfg.ReplicationMode = config.SyncReplicationMode
 	cfg.LogOutput = io.Discard
 	cfg.Logger = log.New(io.Discard, "", 0)
@@ -500,6 +504,26 @@ func init() {
 			return strings.Join(x, ",")
 		}
 		return fmt.Sprintf("route pick=%s/%s part=%d", j(ps), j(bs), partID)
+	})
+	// wb.owners <dmap> <keyhex> <i,i,...|->: on every live member, list the given members as PREVIOUS primary owners
+	// (oldest first) of the key's partition, in front of the current owner ("-": the current owner alone).
+	register("wb.owners", func(a []string) string {
+		hkey := partitions.HKey(a[0], string(unhx(a[1])))
+		var prev []discovery.Member
+		if a[2] != "-" {
+			for _, x := range strings.Split(a[2], ",") {
+				prev = append(prev, cl.members[atoi(x)].db.VerifInternals().RT.This())
+			}
+		}
+		for _, m := range cl.members {
+			if !m.alive {
+				continue
+			}
+			part := m.db.VerifInternals().Primary.PartitionByHKey(hkey)
+			cur := part.Owner()
+			part.SetOwners(append(append([]discovery.Member{}, prev...), cur))
+		}
+		return "ok"
 	})
 	// wb <dmap> <keyhex>: every member's primary and backup copy
 	register("wb", func(a []string) string {
